@@ -223,11 +223,17 @@ Definition spec_directive_parts (d : dname) (value : node) : dparts :=
   | JExprC (Arr es) =>
       let v := nth_plain es 0 in
       match nth_plain es 1 with
-      | Some (Arr ms) => {| dp_value := v; dp_arg := name_arg; dp_mods := str_lits ms |}
       | Some a =>
-          {| dp_value := v;
-             dp_arg := match name_arg with Some _ => name_arg | None => Some a end;
-             dp_mods := match nth_plain es 2 with Some (Arr ms) => str_lits ms | _ => [] end |}
+          match plain_elems a with
+          | Some ms => {| dp_value := v; dp_arg := name_arg; dp_mods := str_lits ms |}
+          | None =>
+              {| dp_value := v;
+                 dp_arg := match name_arg with Some _ => name_arg | None => Some a end;
+                 dp_mods := match nth_plain es 2 with
+                            | Some x => match plain_elems x with Some ms => str_lits ms | None => [] end
+                            | None => []
+                            end |}
+          end
       | None => {| dp_value := v; dp_arg := name_arg; dp_mods := dn_mods d |}
       end
   | JExprC e => {| dp_value := Some e; dp_arg := name_arg; dp_mods := dn_mods d |}
